@@ -22,7 +22,7 @@ func Psi_M(
 	if exitReason != ExitContinue {
 		return Psi_M_ReturnType{
 			Gas:           0,
-			ReasonOrBytes: ExitPanic,
+			ReasonOrBytes: PANIC,
 			Addition:      addition,
 		}
 	}
@@ -31,7 +31,7 @@ func Psi_M(
 	if exitReason != ExitContinue {
 		return Psi_M_ReturnType{
 			Gas:           0,
-			ReasonOrBytes: ExitPanic,
+			ReasonOrBytes: PANIC,
 			Addition:      addition,
 		}
 	}
